@@ -32,6 +32,11 @@ def build_source(src, scratch, name='src.sgy'):
     geom = src['geom']
     shape = tuple(src['shape'])
     data = gen.cube(shape, src.get('cubeseed', 0), src.get('valkind', 'smooth'))
+    if src.get('fmt') in (2, 3, 8) and geom not in ('numpy', 'zgy'):
+        # integer sample formats (4-, 2-, 1-byte two's complement): integral values filling 90 % of the format's range
+        lim = {2: 2 ** 31 - 1, 3: 32767, 8: 127}[src['fmt']]
+        m = float(np.max(np.abs(data))) or 1.0
+        data = np.round(data.astype(np.float64) / m * lim * 0.9).astype(np.float32)
     out = {'geom': geom, 'desc': src}
     dt, t0 = src.get('dt', 4000), src.get('t0', 0)
     if geom == 'numpy':
@@ -219,24 +224,32 @@ def zgy_truth_arrays(src):
     return {181: cx, 185: cy, 189: IL, 193: XL}
 
 
-def convert_segy(src_path, out_path, rate=4, bs=None, reduce_iops=False, detection='heuristic', window=None, mem_limit=None):
+def convert_segy(src_path, out_path, rate=4, bs=None, reduce_iops=False, detection='heuristic', window=None, mem_limit=None, prerun=None):
+    """prerun=(rate, blockshape, detection): the same converter object first writes another file with that setting (a converter
+    serving several run() calls is ordinary use; what it wrote before must not show in what it writes next)."""
     from seismic_zfp.conversion import SegyConverter
     kw = {}
     if window is not None:
         kw = dict(min_il=window[0], max_il=window[1], min_xl=window[2], max_xl=window[3])
     with env.quiet():
         with SegyConverter(src_path, **kw) as c:
+            if prerun is not None:
+                c.run(out_path + '.prerun', bits_per_voxel=prerun[0], blockshape=tuple(prerun[1]), reduce_iops=reduce_iops, header_detection=prerun[2])
+                os.remove(out_path + '.prerun')
             if mem_limit is not None:
-                c.mem_limit = mem_limit
+                c.mem_limit = mem_limit          # sized for the setting of the observed run (forces its queue capacity)
             c.run(out_path, bits_per_voxel=rate, blockshape=tuple(bs) if bs is not None else None, reduce_iops=reduce_iops,
                   header_detection=detection)
     return out_path
 
 
-def convert_numpy(data, out_path, rate=4, bs=(4, 4, -1), ilines=None, xlines=None, samples=None, trace_headers=None):
+def convert_numpy(data, out_path, rate=4, bs=(4, 4, -1), ilines=None, xlines=None, samples=None, trace_headers=None, prerun=None):
     from seismic_zfp.conversion import NumpyConverter
     with env.quiet():
         with NumpyConverter(data, ilines=ilines, xlines=xlines, samples=samples, trace_headers=trace_headers or {}) as c:
+            if prerun is not None:
+                c.run(out_path + '.prerun', bits_per_voxel=prerun[0], blockshape=tuple(prerun[1]))
+                os.remove(out_path + '.prerun')
             c.run(out_path, bits_per_voxel=rate, blockshape=tuple(bs))
     return out_path
 
